@@ -15,7 +15,7 @@ func checkC06(c *Ctx) {
 	c.runWireMC("AlphaSmall", c.pick(3, 4), "concatenation = merge on the block format")
 	asp := map[string]bool{"decode": true}
 	mx := &SketchMatrix{Mappings: mappingMatrix(c.alphas(), nil), Reals: exactRealKinds, Modes: []string{"every"}, Aspects: asp}
-	tree := &SketchGen{Init: plainExact(2, "plain"), Tokens: []int{10, 15, -11, 0}, Weights: []int{6, 132}, Ops: []string{"Add", "AddW", "EncDec", "DecodeNew", "Concat"}, Q: 4, QDen: 8, Depth: 3}
+	tree := &SketchGen{Init: plainExact(2, "plain"), Tokens: []int{10, 15, -11, 0}, Weights: []int{2, 6, 132}, Ops: []string{"Add", "AddW", "EncDec", "DecodeNew", "Concat"}, Q: 4, QDen: 8, Depth: 3}
 	c.runSketchGen(tree, mx, c.pick(6, 12), "exhaustive tree with encode/decode")
 	inits := [][]SketchInit{
 		sketches("plain", ex0, ex0, ex0, ex0, ex0, ex0),
@@ -24,7 +24,7 @@ func checkC06(c *Ctx) {
 		sketches("plain", mk("low", 2), mk("low", 3), ex0, ex0, mk("high", 2), mk("high", 1)),
 	}
 	for _, init := range inits {
-		sim := &SketchGen{Init: init, Tokens: append(append([]int{}, tokBins3...), 0, -1, 2, -3, 16, -17), Weights: []int{1, 2, 4, 8, 132, 280, 4096},
+		sim := &SketchGen{Init: init, Tokens: append(append([]int{}, tokBins3...), 0, -1, 2, -3, 16, -17), Weights: []int{1, 2, 4, 6, 8, 132, 280, 4096},
 			Factors: [][2]int{{1, 2}, {2, 1}}, Ops: []string{"Add", "AddW", "AddN", "Merge", "Clear", "Reweight", "EncDec", "DecodeNew", "Concat"},
 			Q: 4, QDen: 8, Depth: c.pick(12, 24), Simulate: true, Num: c.pick(600, 15000)}
 		c.runSketchGen(sim, mx, c.pick(8, 16), "simulated histories with encode/decode/concatenation")
@@ -44,7 +44,10 @@ func checkC09(c *Ctx) {
 	g := &SketchGen{Init: plainExact(2, "plain"), Tokens: []int{10, -11, 0}, Weights: []int{2, 4}, Ops: []string{"AddW", "Proto", "Clear"}, Q: 4, QDen: 8}
 	c.runSketchMC(g, c.pick(8, 12), "TypeOK K_Content K_Merge", "K_OnlyReceiverChanges", "2 sketches with protobuf round trips")
 	asp := map[string]bool{"decode": true, "proto": true}
-	mx := &SketchMatrix{Mappings: mappingMatrix(c.alphas(), nil), Reals: exactRealKinds, Modes: []string{"every"}, Aspects: asp}
+	// besides the from-accuracy mappings, mappings built WithGamma and an offset that is not the kind's default
+	// (each field of the mapping message then differs from every other number the mapping holds)
+	maps := append(mappingMatrix(c.alphas(), nil), []MappingSpec{{"linear@log", 0.02}}, []MappingSpec{{"cubic@log", 0.01}}, []MappingSpec{{"log@cubic", 0.05}}, []MappingSpec{{"linear@cubic", 0.1}})
+	mx := &SketchMatrix{Mappings: maps, Reals: exactRealKinds, Modes: []string{"every"}, Aspects: asp}
 	tree := &SketchGen{Init: plainExact(2, "plain"), Tokens: []int{10, 15, -11, 0}, Weights: []int{6, 132}, Ops: []string{"Add", "AddW", "Proto", "Clear"}, Q: 4, QDen: 8, Depth: c.pick(3, 4)}
 	c.runSketchGen(tree, mx, c.pick(6, 12), "exhaustive tree with protobuf round trips")
 	inits := [][]SketchInit{
